@@ -1,10 +1,10 @@
 import DsdVerif.Driver
 
-partial def loop (h : IO.FS.Stream) (out : IO.FS.Stream) (w : Dsd.RState) : IO Unit := do
+partial def loop (h : IO.FS.Stream) (out : IO.FS.Stream) (w : Dsd.Driver.DState) : IO Unit := do
   let line ← h.getLine
   if line.isEmpty then return ()
   let l := if line.back == '\n' then String.ofList line.toList.dropLast else line
-  let (w', r) := Dsd.Driver.stepR w l
+  let (w', r) := Dsd.Driver.stepD w l
   out.putStrLn r
   loop h out w'
 
